@@ -39,11 +39,16 @@ package piece
 //@ spec Verified(ps *Pieces, i int) bool
 //@   body forall k int :: 0 <= k && k < 20 ==> sha1byte(ps.pieces[i].data, k) == PieceHash(ps, i, k)
 
+// PBit: block c of piece i is present.
+//@ spec PBit(ps *Pieces, i int, c int) bool
+//@   import "github.com/jech/storrent/bitmap"
+//@   body bitmap.Bit(ps.pieces[i].bitmap, c)
+
 // The monitor invariant of Pieces.mu (holds whenever the lock is free), in parts.
 //@ spec InvState(ps *Pieces) bool
 //@   body forall i int :: InR(ps, i) ==> (ps.pieces[i].state == 0 || ps.pieces[i].state == 1 || ps.pieces[i].state == 2)
 //@ spec InvNil(ps *Pieces) bool
-//@   body forall i int :: InR(ps, i) && ps.pieces[i].data == nil ==> ps.pieces[i].state == 0
+//@   body forall i int :: InR(ps, i) && ps.pieces[i].data == nil ==> ps.pieces[i].state == 0 && ps.pieces[i].bitmap == nil
 //@ spec InvBuf(ps *Pieces) bool
 //@   body forall i int :: InR(ps, i) && ps.pieces[i].data != nil ==> len(ps.pieces[i].data) == PL(ps, i)
 //@ spec InvHash(ps *Pieces) bool
@@ -122,7 +127,7 @@ package piece
 // touches another piece, never overwrites a block already present (monitor
 // guarantee [blocks]), allocates the piece buffer at most once.
 //@ func (*Pieces).AddData
-//@   requires ps != nil && GeomP(ps) && int(index) < len(ps.pieces) && len(data) <= 1<<30 && alloc.SaneCounter()
+//@   requires ps != nil && GeomP(ps) && int(index) < len(ps.pieces) && len(data) <= 1<<30
 //@   modifies ps.count, ps.pieces[_].data, ps.pieces[_].bitmap, ps.pieces[_].peers, heap:A:uint8, heap:A:uint32, heap:global:github.com/jech/storrent/alloc.allocated
 //@   ensures  [count] int($r0) <= len(data)
 //@   ensures  [err]   $r2 != nil ==> $r0 == 0 && !$r1
@@ -139,3 +144,103 @@ package piece
 //@     invariant [ex]    InvEx(ps)
 //@     invariant [others] forall i int :: InR(ps, i) && i != int(index) && ps.pieces[i].data != nil ==> samerow_(ps.pieces[i].data, atlock_(ps.pieces[i].data))
 //@   props    C01 C03 C09 C14
+
+// Finalise: incomplete -> busy under the lock, SHA-1 outside it on the buffer
+// this activation owns (rely [mine]), then busy -> complete only if the digest
+// equals the metainfo hash, else the piece is discarded.
+//@ func (*Pieces).Finalise
+//@   requires ps != nil && GeomP(ps) && int(index) < len(ps.pieces) && len(h) == 20
+//@   requires forall k int :: 0 <= k && k < 20 ==> h[k] == PieceHash(ps, int(index), k)
+//@   ghostinit Ghost_idx = int(index)
+//@   atcall   (*Piece).setState :: oldstate == 0 && state == 2 :: Ghost_own = true
+//@   modifies ps.count, ps.pieces[_].data, ps.pieces[_].bitmap, ps.pieces[_].peers, ps.pieces[_].state, heap:global:github.com/jech/storrent/alloc.allocated
+//@   ensures  [done]  $r0 ==> $r2 == nil && ps.pieces[index].state == 1 && Verified(ps, int(index))
+//@   ensures  [bad]   $r2 != nil ==> !$r0
+//@   props    C01 C03 C10
+
+// del: called with the lock held; when forced it may release the lock while
+// the piece is busy (never frees a buffer under the hasher). Discards at most
+// piece p.
+//@ func (*Pieces).del
+//@   locked   github.com/jech/storrent/tor/piece.Pieces.mu ps
+//@   relocks  github.com/jech/storrent/tor/piece.Pieces.mu ps
+//@   requires ps != nil && GeomP(ps) && int(p) < len(ps.pieces)
+//@   modifies ps.count, ps.pieces[_].data, ps.pieces[_].bitmap, ps.pieces[_].peers, ps.pieces[_].state, heap:global:github.com/jech/storrent/alloc.allocated
+//@   ensures  [done]  $r0 ==> ps.pieces[p].data == nil && ps.pieces[p].state == 0
+//@   ensures  [force] force ==> ps.pieces[p].data == nil
+//@   ensures  [busy]  !force && !$r0 ==> ps.pieces[p].data == nil || ps.pieces[p].state == 2
+//@   waive    panic :: the count of non-empty pieces is not under contract yet (needs a cardinality lemma): "Negative pieces count" unreachable is NOT proved
+//@   loop 1
+//@     invariant [state] InvState(ps)
+//@     invariant [nil]   InvNil(ps)
+//@     invariant [buf]   InvBuf(ps)
+//@     invariant [hash]  InvHash(ps)
+//@     invariant [d1]    InvD1(ps)
+//@     invariant [d2]    InvD2(ps)
+//@     invariant [ex]    InvEx(ps)
+//@     invariant [data]  ps.pieces[p].data != nil
+//@   props    C01 C03
+
+// Del: afterwards no piece holds a buffer and the store refuses new data.
+//@ func (*Pieces).Del
+//@   requires ps != nil && GeomP(ps)
+//@   modifies ps.deleted, ps.count, ps.pieces[_].data, ps.pieces[_].bitmap, ps.pieces[_].peers, ps.pieces[_].state, heap:global:github.com/jech/storrent/alloc.allocated
+//@   ensures  [empty]   forall i int :: InR(ps, i) ==> ps.pieces[i].data == nil
+//@   ensures  [deleted] ps.deleted
+//@   loop 1
+//@     invariant [range] int(i) <= len(ps.pieces) && ps.deleted
+//@     invariant [freed] forall j int :: 0 <= j && j < int(i) ==> ps.pieces[j].data == nil
+//@     invariant [state] InvState(ps)
+//@     invariant [nil]   InvNil(ps)
+//@     invariant [buf]   InvBuf(ps)
+//@     invariant [hash]  InvHash(ps)
+//@     invariant [d1]    InvD1(ps)
+//@     invariant [d2]    InvD2(ps)
+//@     invariant [ex]    InvEx(ps)
+//@   props    C01 C03 C17
+
+//@ func (*Pieces).Count
+//@   requires ps != nil
+//@   props    C03
+//@ func (*Pieces).Bytes
+//@   requires ps != nil
+//@   props    C03
+//@ func (*Pieces).Complete
+//@   requires ps != nil && int(n) < len(ps.pieces)
+//@   props    C01 C10
+//@ func (*Pieces).All
+//@   requires ps != nil
+//@   props    C11
+//@ func (*Pieces).PieceEmpty
+//@   requires ps != nil && int(n) < len(ps.pieces)
+//@   props    C03
+//@ func (*Pieces).PieceBitmap
+//@   requires ps != nil && GeomP(ps) && int(n) < len(ps.pieces)
+//@   props    C09
+//@ func (*Pieces).UpdateTime
+//@   requires ps != nil && int(index) < len(ps.pieces)
+//@   modifies ps.pieces[_].time
+//@   props    C02 C10
+
+// Assumed (package-local) contract of slices.SortFunc as used by Expire: it
+// permutes its argument in place, so a table of indices below len(x) stays one.
+//@ extern slices.SortFunc
+//@   sig func(x []int, cmp func(a, b int) int)
+//@   requires forall k int :: 0 <= k && k < len(x) ==> 0 <= x[k] && x[k] < len(x)
+//@   modifies x[_]
+//@   noalloc
+//@   ensures  forall k int :: 0 <= k && k < len(x) ==> 0 <= x[k] && x[k] < len(x)
+
+// Expire: evicts pieces (never busy ones: del is not forced) until the target
+// is met; calls f exactly for the evicted pieces that were complete.
+//@ func (*Pieces).Expire
+//@   requires ps != nil && GeomP(ps) && f != nil
+//@   callback f pure
+//@   modifies ps.count, ps.pieces[_].data, ps.pieces[_].bitmap, ps.pieces[_].peers, ps.pieces[_].state, heap:global:github.com/jech/storrent/alloc.allocated
+//@   ensures  [count] 0 <= $r0
+//@   loop 1
+//@     invariant 0 <= $i && len(t) == npieces && npieces == len(ps.pieces)
+//@   loop 2
+//@     invariant 0 <= count && count <= $i && npieces == len(ps.pieces) && len(a) == npieces
+//@     invariant forall k int :: 0 <= k && k < len(a) ==> 0 <= a[k] && a[k] < npieces
+//@   props    C03
